@@ -156,6 +156,11 @@ def layout(w, stmts):
                     mark('impossible', 'duplicate label / label named like a constant')
                 L.labels[st[1]] = cur
             elif k in ('op', 'wflip'):
+                if cur % dw and cur % w == 0:
+                    # the file format holds whole ops: segment pieces start and end on even words (the Writer refuses odd
+                    # starts / lengths), and statements are contiguous from a piece's start - so no accepted program has
+                    # an op statement at an odd word
+                    mark('impossible', 'op statement at a w- but not 2w-aligned address')
                 L.ops.append((cur, i, k))
                 cur += dw
             elif k == 'pad':
